@@ -219,6 +219,7 @@ def c03(ctx):
 def c07(ctx):
     model_check(ctx, "MCOptions.tla", "MCOptions.cfg")
     sign_family(ctx)
+    batch_extra(ctx)     # wrong pre-hash lengths at every batch position (with signatures valid over the wrong-length string), option errors
     finish(ctx, "14 (variant, context) pairs differing in one bit / length / trailing zero / 254 vs 255 / variant: sign under each, verify under every pair (single default, ZIP-215, batch member), "
            "expected verdict computed by TLC from the verifier-side hash; option/length matrix (style x hash selector x context length {0,1,2,254,255,256,257,1000} x message length {0,63,64,65}) "
            "on Sign / VerifyWithOptions / VerifyBatch: refusal surface and the variant actually used (which stdlib-made candidate signature matches / is accepted)", SIGN_ASSUME)
